@@ -176,7 +176,6 @@ Inductive cerr :=
 | InvalidTms             (* LoadEmbeddedTileMatrixSet / json.Unmarshal / validateTileMatrixSet: error returned *)
 | NoSource               (* os.Stat(source): log.Fatalf *)
 | UnsafePath             (* a '%' in the target path: outside the model *)
-| DuplicateIds           (* the same tile matrix id twice: outside the model *)
 | PipelinePanic          (* the processing pipeline panics (e.g. a polygon outside the grid without -iog) *)
 | Gpkg (e : gerr).       (* a target writer stops the process *)
 
@@ -205,8 +204,13 @@ Fixpoint cfoldM {A S} (f : S -> A -> cres S) (l : list A) (s : S) : cres S :=
 Fixpoint memz (x : Z) (l : list Z) : bool :=
   match l with [] => false | y :: r => Z.eqb y x || memz x r end.
 
-Fixpoint nodupz (l : list Z) : bool :=
-  match l with [] => true | y :: r => negb (memz y r) && nodupz r end.
+(** the keys of the map gpkgTargets (main.go:139-151): ONE target per DISTINCT requested id, however often
+    the id is listed in -tilematrices.  main.go calls initGPKGTarget once per list element and stores the
+    result under the id; a repeated call re-opens the same path (with -overwrite: removes and re-creates
+    it), which leaves the file system and the map as one call does.  CreateTables, the per-table state
+    and processing.ProcessFeatures all range over the MAP.  The map has no order: last occurrences here. *)
+Fixpoint distinct_ids (l : list Z) : list Z :=
+  match l with [] => [] | y :: r => if memz y r then distinct_ids r else y :: distinct_ids r end.
 
 (** what one target gets out of the pipeline's deliveries: its own, in delivery order
     (writeFeaturesToTargets processing.go:97-108) *)
@@ -230,7 +234,7 @@ Section Cli.
     a_tms_ok : bool;               (* the -tms / -z arguments load, parse and pass validateTileMatrixSet *)
     a_source : option source;      (* None: the source file does not exist *)
     a_target : str;                (* -targetGpkg *)
-    a_ids : list Z;                (* -tilematrices *)
+    a_ids : list Z;                (* -tilematrices, as listed (an id may occur more than once) *)
     a_flags : flags
   }.
 
@@ -271,11 +275,11 @@ Section Cli.
     else match a_source a with
     | None => CErr NoSource
     | Some src =>
-        if negb (nodupz (a_ids a)) then CErr DuplicateIds else
-        cdo st <- cfoldM (init_target (a_flags a) (a_target a)) (a_ids a) (fs0, []);
+        let ids := distinct_ids (a_ids a) in
+        cdo st <- cfoldM (init_target (a_flags a) (a_target a)) ids (fs0, []);
         let (fs1, tgts0) := st in
         cdo tgts1 <- cmapM (create_in (map fst src)) tgts0;
-        cdo tgts2 <- cfoldM (run_table (a_flags a) (a_ids a)) src tgts1;
+        cdo tgts2 <- cfoldM (run_table (a_flags a) ids) src tgts1;
         COk (write_back fs1 tgts2)
     end.
 
